@@ -11,7 +11,7 @@ import numpy as np
 from common import emit, payload, rand_unit_quat, rng
 
 from diffpy.structure import Atom, Lattice, Structure
-from orix.crystal_map import Phase
+from orix.crystal_map import Phase, PhaseList
 from orix.crystal_map.phase_list import _new_structure_matrix_from_alignment
 from orix.vector import Miller
 from orix.vector import miller as MM
@@ -504,11 +504,576 @@ def lattice_block(spec, nvec):
         st(f"make/{f}/inconsistent")
 
 
+# ================================================================== audit strata
+# Oracle-only additions (no Coq cases) for entry points / keyword paths / input classes /
+# parameter combinations / histories that the block above does not reach.  Every parameter
+# that matters is CYCLED deterministically (global counters with pairwise coprime periods), the
+# random generator R only draws the numbers.
+SHAPES_X = [(2, 1, 3), (1, 1), (2, 3, 2), (3, 0), (1, 2, 1, 2), (0, 2), (2, 1)]
+KINDS_X = ["int-small", "real", "int-large", "axis", "real", "zero"]
+SGS = [1, 2, 14, 62, 123, 166, 194, 225, 150, 229, 75]
+PGS = ["1", "m-3m", "6/mmm", None, "-3m", "mmm", "4/mmm", "2/m", "432", "-1", "622", "32", "m-3"]
+ENTRIES = ["space_group", "setter", "setter-twice", "realign", "deepcopy", "phaselist-structures",
+           "phaselist-phases", "phaselist-add", "phaselist-deepcopy", "lattice-from-base", "space_group+setter"]
+CONTAINERS = ["ndarray", "list", "tuple", "ndarray-noncontiguous", "float32"]
+BSHAPES = [((3,), (1,)), ((2, 1), (1, 3)), ((2, 2), (2, 2)), ((1,), (4,)), ((2, 1, 2), (3, 1)), ((3,), (3,)),
+           ((0,), (1,))]
+HISTORIES = ["native", "xyz-then-format", "setter", "other-format-then-format"]
+OTHERPH = ["same", "deepcopy", "rebuilt"]
+OPS = ["reshape", "transpose", "flatten", "getitem-int", "getitem-slice", "neg", "deepcopy", "unit", "mean",
+       "squeeze", "getitem-mask"]
+DUAL = {"uvw": "hkl", "hkl": "uvw", "UVTW": "hkil", "hkil": "UVTW", "xyz": "xyz"}
+SPACE = {"xyz": "d", "uvw": "d", "UVTW": "d", "hkl": "r", "hkil": "r"}
+CTR = {"obj": 0, "cross": 0, "dot": 0, "hist": 0, "trans": 0}
+
+
+def nz(x):
+    return max(float(np.max(np.abs(x), initial=0)), 1e-300)
+
+
+def to_cart(fmt, c, Aref, Bref):
+    """reference: coordinates in a format -> Cartesian (textbook base from the parameters)"""
+    c = np.asarray(c, float)
+    if fmt == "xyz":
+        return c
+    if fmt == "uvw":
+        return c @ Aref
+    if fmt == "UVTW":
+        return np.stack([2 * c[..., 0] + c[..., 1], c[..., 0] + 2 * c[..., 1], c[..., 3]], -1) @ Aref
+    if fmt == "hkl":
+        return c @ Bref.T
+    return np.stack([c[..., 0], c[..., 1], c[..., 3]], -1) @ Bref.T
+
+
+def from_cart(fmt, x, Aref, Bref):
+    """reference: Cartesian -> coordinates in a format"""
+    x = np.asarray(x, float)
+    if fmt == "xyz":
+        return x
+    if fmt in ("uvw", "UVTW"):
+        t = x @ Bref
+        if fmt == "uvw":
+            return t
+        u, v, w = t[..., 0], t[..., 1], t[..., 2]
+        return np.stack([(2 * u - v) / 3, (2 * v - u) / 3, -(u + v) / 3, w], -1)
+    t = x @ Aref.T
+    if fmt == "hkl":
+        return t
+    return np.stack([t[..., 0], t[..., 1], -(t[..., 0] + t[..., 1]), t[..., 2]], -1)
+
+
+def idx3(fmt, c):
+    """3-index triple of lattice coordinates (uvw of UVTW, hkl of hkil)"""
+    c = np.asarray(c, float)
+    if fmt == "UVTW":
+        return np.stack([2 * c[..., 0] + c[..., 1], c[..., 0] + 2 * c[..., 1], c[..., 3]], -1)
+    if fmt == "hkil":
+        return np.stack([c[..., 0], c[..., 1], c[..., 3]], -1)
+    return c
+
+
+def contain(arr, how):
+    """the same numbers in another container / memory layout / dtype"""
+    if arr.size == 0:
+        return arr                           # a nested empty list would lose the trailing axes
+    if how == "list":
+        return arr.tolist()
+    if how == "tuple":
+        def tup(x):
+            return tuple(tup(y) for y in x) if isinstance(x, list) else x
+        return tup(arr.tolist())
+    if how == "ndarray-noncontiguous":
+        big = np.zeros(arr.shape[:-1] + (2 * arr.shape[-1],), dtype=arr.dtype)
+        big[..., ::2] = arr
+        return big[..., ::2]
+    if how == "float32" and arr.dtype.kind == "i":
+        return arr.astype(np.float32)        # small integers are exact in float32
+    return arr
+
+
+def other_structure():
+    return Structure(atoms=[Atom("Fe", [0.25, 0.5, 0.75])], lattice=Lattice(2.0, 3.0, 7.0, 70.0, 100.0, 115.0))
+
+
+def make_entry(entry, s0, A0, sg, pg):
+    """a Phase holding s0, obtained through a secondary entry point / a multi-step history"""
+    if entry == "space_group":
+        return Phase(name="q", space_group=sg, structure=s0)
+    if entry == "setter":
+        ph = Phase(name="q", point_group=pg)
+        ph.structure = s0
+        return ph
+    if entry == "setter-twice":
+        ph = Phase(name="q", point_group=pg, structure=other_structure())
+        ph.structure = s0
+        return ph
+    if entry == "space_group+setter":
+        ph = Phase(name="q", space_group=sg)
+        ph.structure = other_structure()
+        ph.structure = s0
+        return ph
+    if entry == "realign":
+        return Phase(point_group=pg, structure=Phase(point_group=pg, structure=s0).structure)
+    if entry == "deepcopy":
+        return Phase(point_group=pg, structure=s0).deepcopy()
+    if entry == "phaselist-structures":
+        return PhaseList(names=["o", "q"], point_groups=["m-3m", pg], structures=[other_structure(), s0])["q"]
+    if entry == "phaselist-phases":
+        return PhaseList([Phase("o", point_group="m-3m", structure=other_structure()),
+                          Phase("q", space_group=sg, structure=s0)])[1]
+    if entry == "phaselist-add":
+        pl = PhaseList(Phase("o", point_group="m-3m", structure=other_structure()))
+        pl.add(Phase("q", point_group=pg, structure=s0))
+        return pl["q"]
+    if entry == "phaselist-deepcopy":
+        return PhaseList(names=["q", "o"], space_groups=[sg, 225], structures=[s0, other_structure()]).deepcopy()[0]
+    if entry == "lattice-from-base":
+        s1 = Structure(atoms=[Atom(a.element, a.xyz) for a in s0], lattice=Lattice(base=A0))
+        return Phase(point_group=pg, structure=s1)
+    raise ValueError(entry)
+
+
+def check_phase(tag, ph, spec, cart0, rep0):
+    """the phase's lattice is the textbook aligned one; atoms kept; conversions through it are the reference maps"""
+    abc, ang = spec["abc"], spec["ang"]
+    Aref = ref_base(abc, ang)
+    Bref = np.linalg.inv(Aref)
+    vscale = max(abc)
+    tol = 1e-8
+    L = ph.structure.lattice
+    B = np.array(L.base)
+    if not close(B, Aref, tol, vscale):
+        fail(f"entry:{tag}:base", f"lattice base of a phase obtained via '{tag}' is not the a||e1, c*||e3 base", rep0)
+    if not close(np.array(L.recbase), Bref, tol):
+        fail(f"entry:{tag}:recbase", f"reciprocal base of a phase obtained via '{tag}' is not the dual of the aligned base", rep0)
+    p1 = np.array(L.abcABG())
+    if not (close(p1[:3], abc, tol) and np.all(np.abs(p1[3:] - np.array(ang)) <= 1e-6)):
+        fail(f"entry:{tag}:lattice-parameters", f"lattice parameters changed ('{tag}')", rep0)
+    frac1 = np.array(ph.structure.xyz).reshape(-1, 3)
+    cart1 = np.array(ph.structure.xyz_cartn).reshape(-1, 3)
+    if not (close(cart1, cart0, tol, vscale * 3) and close(frac1 @ B, cart0, tol, vscale * 3)):
+        fail(f"entry:{tag}:atoms", f"atoms' Cartesian positions changed ('{tag}')", rep0)
+    v = gen_indices(3, "int-small", (3,))
+    x = np.array([[R.gauss(0, 1) * vscale for _ in range(3)] for _ in range(2)])
+    rep = dict(rep0, v=v.tolist(), x=x.tolist())
+    try:
+        ok = (close(Miller(uvw=v, phase=ph).data, v @ Aref, tol) and close(Miller(hkl=v, phase=ph).data, v @ Bref.T, tol)
+              and close(Miller(xyz=x, phase=ph).uvw, x @ Bref, tol) and close(Miller(xyz=x, phase=ph).hkl, x @ Aref.T, tol))
+        if not ok:
+            fail(f"entry:{tag}:conversion", f"Miller conversions through a phase obtained via '{tag}' are not the reference maps", rep)
+        ax = [ph.a_axis, ph.b_axis, ph.c_axis, ph.ar_axis, ph.br_axis, ph.cr_axis]
+        refax = [Aref[0], Aref[1], Aref[2], Bref[:, 0], Bref[:, 1], Bref[:, 2]]
+        for nm, a, r, f in zip(["a", "b", "c", "ar", "br", "cr"], ax, refax, ["uvw"] * 3 + ["hkl"] * 3):
+            if not (a.shape == (1,) and close(a.data[0], r, tol, nz(r))):
+                fail(f"axes:{nm}_axis", f"Phase.{nm}_axis is not the {nm} base vector of the aligned lattice", rep0)
+            if a.coordinate_format != f:
+                fail(f"axes:{nm}_axis:format", f"Phase.{nm}_axis is reported as {a.coordinate_format}", rep0)
+    except Exception as e:  # noqa
+        fail(f"entry:{tag}:raises:{exc_of(e)}", f"Miller / axes on a phase obtained via '{tag}' raise {exc_of(e)}", rep)
+
+
+def build(fmt, c, ph, hist, Aref, Bref):
+    """a Miller object with coordinates c in format fmt, reached through different histories"""
+    if hist == "native":
+        return mk(fmt, c, ph)
+    x = to_cart(fmt, c, Aref, Bref)
+    if hist == "xyz-then-format" or fmt == "xyz":
+        m = Miller(xyz=x, phase=ph)
+    elif hist == "setter":
+        m = Miller(xyz=np.ones(x.shape), phase=ph)
+        setattr(m, fmt, c)
+    else:  # built in a format of the OTHER space, then switched
+        of = {"uvw": "hkl", "UVTW": "hkil", "hkl": "uvw", "hkil": "UVTW"}[fmt]
+        m = mk(of, from_cart(of, x, Aref, Bref), ph)
+    m.coordinate_format = fmt
+    return m
+
+
+def extra_block(spec, k):
+    abc, ang = spec["abc"], spec["ang"]
+    scale = spec["scale"]
+    rep0 = {"lattice": spec}
+    lat0 = Lattice(*abc, *ang, baserot=np.array(spec["baserot"]))
+    A0 = lat0.base.copy()
+    s0 = Structure(atoms=[Atom("Al", xyz) for xyz in spec["atoms"]], lattice=lat0)
+    cart0 = np.array(s0.xyz_cartn).reshape(-1, 3).copy()
+    Aref = ref_base(abc, ang)
+    Bref = np.linalg.inv(Aref)
+    G = ref_metric(abc, ang)
+    Gi = np.linalg.inv(G)
+    V = abc[0] * abc[1] * abc[2] * vol_factor(*ang)
+    tol = 1e-8
+    pg = PGS[k % len(PGS)]
+    sg = SGS[k % len(SGS)]
+    try:
+        ph = Phase(point_group=pg, structure=s0)
+    except Exception:  # noqa  (small cells: reported by lattice_block as phase:raises:...)
+        st("x/skipped-phase-raises")
+        return
+
+    # --- (1) secondary entry points / histories that lead to a phase with this structure
+    entry = ENTRIES[k % len(ENTRIES)]
+    st(f"x/entry/{entry}")
+    st(f"x/point_group/{pg}")
+    try:
+        phe = make_entry(entry, s0, A0, sg, pg)
+    except Exception as e:  # noqa
+        phe = None
+        fail(f"entry:{entry}:raises:{exc_of(e)}:{scale}", f"obtaining a phase via '{entry}' raises {exc_of(e)}", rep0)
+    if not np.array_equal(lat0.base, A0) or not close(np.array(s0.xyz_cartn).reshape(-1, 3), cart0, 0, 1):
+        fail(f"entry:{entry}:input-mutated", f"'{entry}' modified the caller's structure", rep0)
+    if phe is not None:
+        check_phase(entry, phe, spec, cart0, dict(rep0, entry=entry, space_group=sg, point_group=pg))
+    check_phase("point_group=" + str(pg), ph, spec, cart0, dict(rep0, point_group=pg))
+    if phe is not None and k % 2:
+        ph = phe                       # use the secondary-entry phase for the vector strata half of the time
+
+    # --- (2) Miller objects: >= 3 axes / size-1 / empty axes, containers, single-index properties, .coordinates
+    for _ in range(3):
+        n = CTR["obj"]
+        CTR["obj"] += 1
+        f1 = FORMATS[n % 5]
+        shape = SHAPES_X[n % 7]
+        kind = KINDS_X[(n // 5 + n) % 6]
+        how = CONTAINERS[(n // 7 + n) % 5]
+        c1 = gen_indices(NL[f1], kind, shape)
+        rep = dict(rep0, format=f1, coords=c1.tolist(), shape=list(shape), container=how, point_group=pg)
+        st(f"x/make/{f1}/shape={shape}")
+        st(f"x/make/{f1}/{how}")
+        xref = to_cart(f1, c1, Aref, Bref)
+        try:
+            m = mk(f1, contain(c1, how), ph)
+        except Exception as e:  # noqa
+            fail(f"makex:{f1}:{how}:raises:{exc_of(e)}", f"Miller({f1}=<{how} of shape {shape}+(n,)>) raises {exc_of(e)}", rep)
+            continue
+        if m.shape != shape:
+            fail(f"shape:makex:{f1}", f"Miller({f1}=array of shape {shape}+(n,)) has shape {m.shape}", rep)
+            continue
+        if not close(m.data, xref, tol, nz(xref)):
+            fail(f"makex:{f1}:data", f"Miller({f1}=...) of shape {shape} ({how}) is not the reference linear image", rep)
+            continue
+        try:
+            want = {f: from_cart(f, xref, Aref, Bref) for f in FORMATS}
+            for f2 in FORMATS:
+                got = np.array(getattr(m, "data" if f2 == "xyz" else f2))
+                if got.shape != shape + (NL[f2],):
+                    fail(f"shape:coordsx:{f2}", f".{f2} has shape {got.shape} for vectors of shape {shape}", rep)
+                elif not close(got, want[f2], tol, nz(want[f2])):
+                    fail(f"coordsx:{f2}", f".{f2} of vectors of shape {shape} differs from the reference map", rep)
+                m.coordinate_format = f2
+                got = np.array(m.coordinates)
+                if got.shape != shape + (NL[f2],) or not close(got, want[f2], tol, nz(want[f2])):
+                    fail(f"coordinates:{f2}", f".coordinates in format {f2} differs from the reference {f2} coordinates", rep)
+                ln = np.array(m.length, float)
+                lref = np.sqrt(np.sum(xref ** 2, -1))
+                if ln.shape != shape or not close(ln, lref, tol, nz(lref)):
+                    fail(f"lengthx:{f2}", f"Miller.length in format {f2} for shape {shape} is not the vector length", rep)
+            m.coordinate_format = f1
+            for nm, f2, j in [("h", "hkl", 0), ("k", "hkl", 1), ("l", "hkl", 2), ("i", "hkil", 2),
+                              ("u", "uvw", 0), ("v", "uvw", 1), ("w", "uvw", 2),
+                              ("U", "UVTW", 0), ("V", "UVTW", 1), ("T", "UVTW", 2), ("W", "UVTW", 3)]:
+                got = np.array(getattr(m, nm))
+                if got.shape != shape or not close(got, want[f2][..., j], tol, nz(want[f2])):
+                    fail(f"index:{nm}", f"Miller.{nm} is not component {j} of the reference {f2} coordinates", rep)
+            # write path with the same container, then read back in the first format
+            for f2 in FORMATS[1:]:
+                m3 = Miller(xyz=np.ones(shape + (3,)), phase=ph)
+                arr = want[f2]
+                setattr(m3, f2, contain(arr, how if how != "float32" else "ndarray"))
+                if m3.shape != shape or not close(m3.data, xref, tol, nz(xref)):
+                    fail(f"setterx:{f2}", f"setting .{f2} (shape {shape}, {how}) does not reproduce the vector", rep)
+        except Exception as e:  # noqa
+            fail(f"coordsx:raises:{exc_of(e)}", f"reading/writing coordinates of a shape {shape} Miller raises {exc_of(e)}", rep)
+
+    # --- (3) _transform_space on the extra shapes / containers, all nine pairs cycled
+    refM = {("d", "c"): Aref, ("c", "d"): Bref, ("r", "c"): Bref.T, ("c", "r"): Aref.T, ("d", "r"): G, ("r", "d"): Gi}
+    L = ph.structure.lattice
+    for _ in range(3):
+        n = CTR["trans"]
+        CTR["trans"] += 1
+        si, so = "drc"[(n % 9) // 3], "drc"[n % 3]
+        shape = SHAPES_X[n % 7]
+        how = CONTAINERS[n % 5]
+        v = gen_indices(3, KINDS_X[(n // 9 + n) % 6], shape)
+        rep = dict(rep0, v=v.tolist(), space_in=si, space_out=so, container=how)
+        st(f"x/trans/{si}->{so}")
+        try:
+            w = np.asarray(MM._transform_space(contain(v, how), si, so, L))
+        except Exception as e:  # noqa
+            fail(f"transformx:{si}->{so}:raises:{exc_of(e)}", f"_transform_space raises {exc_of(e)} for a {how} of shape {shape}+(3,)", rep)
+            continue
+        ref = v.astype(float) if si == so else v.astype(float) @ refM[(si, so)]
+        if w.shape != ref.shape:
+            fail(f"transformx:{si}->{so}:shape", f"conversion changes the array shape {shape}+(3,) -> {w.shape}", rep)
+        elif not close(w, ref, tol, nz(ref)):
+            fail(f"transformx:{si}->{so}", f"conversion {si}->{so} of a {how} of shape {shape}+(3,) differs from the reference map", rep)
+
+    # --- (4) dot / dot_outer within a space (metric forms), broadcasting shapes; 4-index zone law
+    for _ in range(2):
+        n = CTR["dot"]
+        CTR["dot"] += 1
+        fa, fb = [("uvw", "uvw"), ("hkl", "hkl"), ("UVTW", "uvw"), ("hkil", "hkl"), ("uvw", "UVTW"), ("hkl", "hkil"),
+                  ("UVTW", "UVTW"), ("hkil", "hkil"), ("xyz", "uvw"), ("uvw", "xyz"), ("xyz", "xyz")][n % 11]
+        sa, sb = BSHAPES[n % 7]
+        if (n // 7) % 2:
+            sa, sb = sb, sa
+        kind = ["int-small", "real", "int-large"][n % 3]
+        ca, cb = gen_indices(NL[fa], kind, sa), gen_indices(NL[fb], kind, sb)
+        rep = dict(rep0, fa=fa, fb=fb, ca=ca.tolist(), cb=cb.tolist(), point_group=pg)
+        st(f"x/dot/{fa}.{fb}")
+        st(f"x/dot/shapes={sa}.{sb}")
+        xa, xb = to_cart(fa, ca, Aref, Bref), to_cart(fb, cb, Aref, Bref)
+        if "xyz" in (fa, fb):
+            dref = np.sum(xa * xb, -1)
+            oref = np.einsum("...i,...ji->...j", xa.reshape(sa + (1,) * len(sb) + (3,)), xb.reshape((-1, 3))).reshape(sa + sb) \
+                if xb.size else np.zeros(sa + sb)
+        else:
+            M = G if SPACE[fa] == "d" else Gi      # u1 G u2^T  /  h1 G* h2^T from the 3-index triples
+            ia, ib = idx3(fa, ca), idx3(fb, cb)
+            dref = np.einsum("...i,ij,...j->...", ia, M, ib)
+            oref = np.einsum("ai,ij,bj->ab", ia.reshape(-1, 3), M, ib.reshape(-1, 3)).reshape(sa + sb)
+        try:
+            ma, mb = mk(fa, ca, ph), mk(fb, cb, ph)
+            d = np.asarray(ma.dot(mb), float)
+            do = np.asarray(ma.dot_outer(mb), float)
+        except Exception as e:  # noqa
+            fail(f"dotx:{fa}.{fb}:raises:{exc_of(e)}", f"dot / dot_outer of {fa} with {fb} (shapes {sa}, {sb}) raises {exc_of(e)}", rep)
+            continue
+        sc = nz(xa) * nz(xb)
+        if d.shape != dref.shape or not close(d, dref, tol, sc):
+            fail(f"dotx:{SPACE[fa]}:metric", f"dot of {fa} with {fb} vectors (shapes {sa}, {sb}) is not the metric form of the indices", rep)
+        if do.shape != oref.shape or not close(do, oref, tol, sc):
+            fail(f"dot_outer:{SPACE[fa]}:metric", f"dot_outer of {fa} with {fb} vectors (shapes {sa}, {sb}) is not the metric form of all index pairs", rep)
+    q1, q2 = gen_indices(4, ["int-small", "real"][k % 2], (3,)), gen_indices(4, ["int-small", "real"][k % 2], (3,))
+    st("x/zone-law/4-index")
+    try:
+        z = np.sum(Miller(UVTW=q1, phase=ph).data * Miller(hkil=q2, phase=ph).data, -1)
+        zref = np.sum(q1.astype(float) * q2.astype(float), -1)      # Uh + Vk + Ti + Wl
+        z3 = np.sum(idx3("UVTW", q1) * idx3("hkil", q2), -1)        # uh + vk + wl
+        if not (close(z, zref, tol, 1 + nz(zref)) and close(z, z3, tol, 1 + nz(z3))):
+            fail("zone-law:4-index", "<UVTW, hkil> (Cartesian data) != Uh + Vk + Ti + Wl = uh + vk + wl", dict(rep0, UVTW=q1.tolist(), hkil=q2.tolist()))
+    except Exception as e:  # noqa
+        fail(f"zone-law:4-index:raises:{exc_of(e)}", f"4-index zone law raises {exc_of(e)}", dict(rep0, UVTW=q1.tolist(), hkil=q2.tolist()))
+
+    # --- (5) cross: all 25 ordered format pairs x construction history x other's phase object x broadcasting
+    ph_same = {"same": ph, "deepcopy": ph.deepcopy(),
+               "rebuilt": Phase(point_group=ph.point_group, structure=s0)}
+    for _ in range(5):
+        n = CTR["cross"]
+        CTR["cross"] += 1
+        fa, fb = FORMATS[(n % 25) // 5], FORMATS[n % 5]
+        hist = HISTORIES[n % 4]
+        oth = OTHERPH[n % 3]
+        sa, sb = BSHAPES[n % 7]
+        if (n // 25) % 2:
+            sa, sb = sb, sa
+        kind = ["int-small", "real", "int-large", "axis"][(n // 25 + n) % 4]
+        ca, cb = gen_indices(NL[fa], kind, sa), gen_indices(NL[fb], kind, sb)
+        rep = dict(rep0, fa=fa, fb=fb, ca=ca.tolist(), cb=cb.tolist(), history=hist, other_phase=oth, point_group=pg)
+        st(f"x/cross/{fa}x{fb}")
+        st(f"x/cross/history={hist}/other={oth}")
+        xa, xb = to_cart(fa, ca, Aref, Bref), to_cart(fb, cb, Aref, Bref)
+        try:
+            ma, mb = build(fa, ca, ph, hist, Aref, Bref), build(fb, cb, ph_same[oth], HISTORIES[(n + 1) % 4], Aref, Bref)
+        except Exception as e:  # noqa
+            fail(f"cross25:build:{hist}:raises:{exc_of(e)}", f"building the operands ({hist}) raises {exc_of(e)}", rep)
+            continue
+        try:
+            mc, err = ma.cross(mb), None
+        except Exception as e:  # noqa
+            mc, err = None, exc_of(e)
+        if SPACE[fa] != SPACE[fb]:
+            if mc is not None:
+                fail(f"cross25:mixed-space:{fa}x{fb}", "cross of a direct and a reciprocal vector did not raise", rep)
+            continue
+        if mc is None:
+            fail(f"cross25:raises:{fa}x{fb}:{err}", f"Miller.cross raises {err} for {fa} x {fb} (other's phase: {oth}, history: {hist})", rep)
+            continue
+        cref = np.cross(xa, xb)
+        sc = nz(xa) * nz(xb)
+        if mc.coordinate_format != DUAL[fa]:
+            fail(f"cross25:format:{fa}x{fb}", f"cross of {fa} x {fb} vectors is reported as {mc.coordinate_format}", rep)
+        if mc.shape != cref.shape[:-1]:
+            fail("cross25:shape", f"cross of shapes {sa} x {sb} has shape {mc.shape}", rep)
+            continue
+        if not close(mc.data, cref, tol, sc):
+            fail("cross25:data", f"cross of {fa} x {fb} is not the Cartesian cross product of the reference vectors", rep)
+        if not (close(np.sum(mc.data * xa, -1), np.zeros(cref.shape[:-1]), tol, sc * nz(xa))
+                and close(np.sum(mc.data * xb, -1), np.zeros(cref.shape[:-1]), tol, sc * nz(xb))):
+            fail("cross25:perpendicular", "cross product is not perpendicular to its factors", rep)
+        if fa != "xyz" and fb != "xyz":
+            ic = np.cross(idx3(fa, ca), idx3(fb, cb))
+            # (parallel factors give an exactly zero reference: the scale is then the rounding of the
+            #  Cartesian product carried into the dual indices)
+            if SPACE[fa] == "d":
+                dual, dref, dsc = mc.hkl, V * ic, sc * nz(Aref)
+            else:
+                dual, dref, dsc = mc.uvw, ic / V, sc * nz(Bref)
+            if not close(dual, dref, tol, max(nz(dref), dsc)):
+                fail("cross25:dual-indices", f"dual-space indices of {fa} x {fb} != (i1 x i2) * V^(+-1)", rep)
+            got = np.array(mc.coordinates)
+            wantc = from_cart(DUAL[fa], cref, Aref, Bref)
+            if got.shape != wantc.shape or not close(got, wantc, tol, max(nz(wantc), dsc)):
+                fail(f"cross25:coordinates:{fa}", f".coordinates of {fa} x {fb} are not the {DUAL[fa]} coordinates of the product", rep)
+
+    # --- (6) histories: shape operations keep phase + format and act on the coordinates component-wise
+    for _ in range(2):
+        n = CTR["hist"]
+        CTR["hist"] += 1
+        op = OPS[n % 11]
+        f1 = FORMATS[n % 5]
+        shape = [(2, 3), (2, 1, 3), (4,), (1, 2)][n % 4]
+        c1 = gen_indices(NL[f1], ["int-small", "real", "int-large"][n % 3], shape)
+        if op == "unit":      # avoid the zero vector
+            c1[..., -1] = np.where(np.all(c1 == 0, -1), 1, c1[..., -1])
+        rep = dict(rep0, op=op, format=f1, coords=c1.tolist(), point_group=pg)
+        st(f"x/history/{op}")
+        c = np.asarray(c1, float)
+        try:
+            m = mk(f1, c1, ph)
+            if op == "reshape":
+                d, cr = m.reshape(*shape[::-1]), c.reshape(shape[::-1] + (NL[f1],))
+            elif op == "transpose":
+                axes = tuple(range(len(shape)))[::-1]
+                d = m.transpose(*axes) if len(shape) != 1 else m.transpose()
+                cr = c.transpose(axes + (len(shape),))
+            elif op == "flatten":
+                d, cr = m.flatten(), c.T.reshape(NL[f1], -1).T      # orix flattens the navigation axes in F order
+            elif op == "getitem-int":
+                d, cr = m[-1], c[-1]
+                if cr.ndim == 1:
+                    cr = cr[None]
+            elif op == "getitem-slice":
+                d, cr = m[..., ::-1], c[..., ::-1, :]
+            elif op == "getitem-mask":
+                mask = np.zeros(shape, bool)
+                mask.flat[::2] = True
+                d, cr = m[mask], c[mask]
+            elif op == "neg":
+                d, cr = -m, -c
+            elif op == "deepcopy":
+                d, cr = m.deepcopy(), c
+            elif op == "unit":
+                nrm = np.sqrt(np.sum(to_cart(f1, c, Aref, Bref) ** 2, -1))
+                d, cr = m.unit, c / nrm[..., None]
+            elif op == "mean":
+                d, cr = m.mean(), c.reshape(-1, NL[f1]).mean(0)[None]
+            else:  # squeeze
+                d, cr = m.squeeze(), np.atleast_2d(c.squeeze())
+        except Exception as e:  # noqa
+            fail(f"history:{op}:raises:{exc_of(e)}", f"Miller.{op} raises {exc_of(e)} (format {f1}, shape {shape})", rep)
+            continue
+        if d.coordinate_format != f1:
+            fail(f"history:{op}:format", f"after {op}, a {f1} Miller is reported as {d.coordinate_format}", rep)
+        if d.phase is None or not close(np.array(d.phase.structure.lattice.base), Aref, tol, max(abc)):
+            fail(f"history:{op}:phase", f"after {op}, the Miller's phase lattice is not the aligned lattice", rep)
+            continue
+        got = np.array(getattr(d, "data" if f1 == "xyz" else f1))
+        if got.shape != cr.shape or not close(got, cr, tol, 1 + nz(cr)):
+            fail(f"history:{op}:coords", f"after {op}, the {f1} coordinates are not the {op} of the coordinates", rep)
+        f2 = FORMATS[(n // 5 + n + 1) % 5]
+        got2 = np.array(getattr(d, "data" if f2 == "xyz" else f2))
+        want2 = from_cart(f2, to_cart(f1, cr, Aref, Bref), Aref, Bref)
+        if got2.shape != want2.shape or not close(got2, want2, tol, nz(want2)):
+            fail(f"history:{op}:convert:{f2}", f"after {op}, .{f2} is not the reference conversion of the {f1} coordinates", rep)
+
+
+def conv4_extra():
+    """4-index kernels: list/tuple input, shapes with >= 3 / empty axes, spelling of the convention keyword"""
+    for n in range(35):
+        shape = SHAPES_X[n % 7]
+        how = CONTAINERS[n % 5]
+        kind = KINDS_X[n % 6]
+        uvw = gen_indices(3, kind, shape)
+        q = gen_indices(4, kind, shape)
+        rep = {"uvw": uvw.tolist(), "UVTW": q.tolist(), "container": how}
+        st(f"x/conv4/{how}/shape={shape}")
+        sc = 1 + nz(uvw)
+        t12 = 1e-6 if (how == "float32" and uvw.dtype.kind == "i") else 1e-12   # float32 input: float32 arithmetic
+        u, v, w = (uvw[..., j].astype(float) for j in range(3))
+        refU = np.stack([(2 * u - v) / 3, (2 * v - u) / 3, -(u + v) / 3, w], -1)
+        refH = np.stack([u, v, -(u + v), w], -1)
+        qf = q.astype(float)
+        try:
+            for conv, f in [(None, 1.0), ("mtex", 3.0), ("MTEX", 3.0), ("Mtex", 3.0), ("degraef", 1.0)]:
+                U = MM._uvw2UVTW(contain(uvw, how), convention=conv)
+                if U.shape != refU.shape or not close(U, f * refU, t12, sc):
+                    fail(f"conv4x:uvw2UVTW:convention={conv}", f"_uvw2UVTW(convention={conv!r}) of a {how} of shape {shape}+(3,) is not {f} x the definition", rep)
+                b = MM._UVTW2uvw(contain(q, how), convention=conv)
+                refb = np.stack([2 * qf[..., 0] + qf[..., 1], qf[..., 0] + 2 * qf[..., 1], qf[..., 3]], -1) / f
+                if b.shape != refb.shape or not close(b, refb, t12, 1 + nz(q)):
+                    fail(f"conv4x:UVTW2uvw:convention={conv}", f"_UVTW2uvw(convention={conv!r}) of a {how} of shape {shape}+(4,) is not the definition / {f}", rep)
+                bb = MM._uvw2UVTW(b, convention=conv)
+                if not close(bb, qf, t12, 1 + nz(q)):
+                    fail(f"conv4x:UVTW->uvw->UVTW:convention={conv}", f"UVTW -> uvw -> UVTW (convention={conv!r}) is not the identity for U+V+T=0", rep)
+            H = MM._hkl2hkil(contain(uvw, how))
+            if H.shape != refH.shape or not close(H, refH, t12, sc):
+                fail("conv4x:hkl2hkil", f"_hkl2hkil of a {how} of shape {shape}+(3,) is not (h, k, -(h+k), l)", rep)
+            h3 = MM._hkil2hkl(contain(q, how))
+            if h3.shape != shape + (3,) or not close(h3, qf[..., [0, 1, 3]], t12, 1 + nz(q)):
+                fail("conv4x:hkil2hkl", f"_hkil2hkl of a {how} of shape {shape}+(4,) is not (h, k, l)", rep)
+            MM._check_UVTW(contain(q, how))
+            MM._check_hkil(contain(q, how))
+        except Exception as e:  # noqa
+            fail(f"conv4x:raises:{exc_of(e)}", f"a 4-index kernel raises {exc_of(e)} for a {how} of shape {shape}", rep)
+
+
+def gen_lattice_x(j):
+    """lattice classes missing from gen_lattice: other unique monoclinic axes, gamma = 60, strongly anisotropic
+    cells, all-obtuse / all-acute triclinic cells; base rotation cycled"""
+    fam = ["monoclinic-c", "monoclinic-a", "hexagonal-60", "anisotropic", "obtuse-triclinic", "acute-triclinic"][j % 6]
+    rot = ["random", "axis-swap", "identity", "random-near-pi"][(j // 6 + j) % 4]
+    a, b, c = (math.exp(R.uniform(math.log(0.2), math.log(30.0))) for _ in range(3))
+    al = be = ga = 90.0
+    if fam == "monoclinic-c":
+        ga = R.uniform(60, 130)
+    elif fam == "monoclinic-a":
+        al = R.uniform(60, 130)
+    elif fam == "hexagonal-60":
+        b, ga = a, 60.0
+    else:
+        lo, hi = {"anisotropic": (55, 125), "obtuse-triclinic": (95, 118), "acute-triclinic": (50, 80)}[fam]
+        while True:
+            al, be, ga = R.uniform(lo, hi), R.uniform(lo, hi), R.uniform(lo, hi)
+            if vol_factor(al, be, ga) > 0.25:
+                break
+        if fam == "anisotropic":
+            a, b, c = R.uniform(0.2, 0.4), R.uniform(2, 4), R.uniform(60, 90)
+            if j % 2:
+                a, c = c, a
+    if rot == "identity":
+        rm = np.eye(3)
+    elif rot == "random":
+        rm = quat2mat(rand_unit_quat(R))
+    elif rot == "random-near-pi":
+        ax = np.array(rand_unit_quat(R)[1:])
+        ax = ax / np.linalg.norm(ax)
+        w = math.pi - 1e-7
+        rm = quat2mat([math.cos(w / 2)] + (math.sin(w / 2) * ax).tolist())
+    else:
+        rm = np.array([[[0, 0, 1], [0, -1, 0], [1, 0, 0]], [[0, 1, 0], [1, 0, 0], [0, 0, -1]],
+                       [[1, 0, 0], [0, -1, 0], [0, 0, -1]]][j % 3], float)
+    atoms = [[R.uniform(-1, 2) for _ in range(3)] for _ in range([5, 1, 0, 2][j % 4])]
+    return {"family": fam, "scale": "normal", "rot": rot, "abc": [a, b, c], "ang": [al, be, ga],
+            "baserot": rm.tolist(), "atoms": atoms}
+
+
 if ONLY is not None:
     lattice_block(ONLY, P.get("nvec", 6))
+    for k in range(30):
+        extra_block(ONLY, k)
 else:
     conv4_cases(max(N, 40))
+    specs = []
     for k in range(N):
-        lattice_block(gen_lattice(k), P.get("nvec", 4))
+        specs.append(gen_lattice(k))
+        lattice_block(specs[-1], P.get("nvec", 4))
+    # audit strata: drawn AFTER the original sequence so that the cases above are unchanged
+    conv4_extra()
+    for j in range(6 if N < 100 else 60):
+        specs.append(gen_lattice_x(j))
+        lattice_block(specs[-1], P.get("nvec", 4))
+    for k, spec in enumerate(specs):
+        extra_block(spec, k)
 
 emit({"cases": cases, "fails": fails, "strata": strata})
